@@ -215,9 +215,7 @@ func (s *Specs) loadSpecFile(path string) error {
 			for _, p := range strings.Split(rest, ",") {
 				curProps = append(curProps, strings.TrimSpace(p))
 			}
-			if cur != nil {
-				cur.Props = curProps
-			}
+			cur = nil // a props line starts a new group; it never re-tags the contract before it
 		case "gosort":
 			// gosort Alias full/pkg/path.TypeName : the SMT datatype of a Go struct type
 			f := strings.Fields(rest)
